@@ -24,7 +24,9 @@ import subprocess
 from common import *
 import grammar as G
 
-CHUNK = 20000
+CHUNK = 60000
+DRIFT_MAXLEN = 3          # LexesAsIntended is evaluated for sequences of at most this many items
+MAX_KEPT = 3000           # violations kept in memory per key class (all are counted)
 LATE_STAGES = ("cstdisplay", "format", "export")     # after lexing/parsing/sema/rendering: not C12
 
 
@@ -163,6 +165,7 @@ def mutants(rng, tier, spellings):
     per_op = 4 if tier == "quick" else 95
     small = 40 if tier == "quick" else 400
     ntrunc_big = 6 if tier == "quick" else 120
+    small_del = 150 if tier == "quick" else 400
     out = []
     for f in file_sources():
         with open(f, encoding="utf-8") as fh:
@@ -185,6 +188,9 @@ def mutants(rng, tier, spellings):
         for _ in range(per_op):
             b = rng.randrange(len(text) + 1)
             out.append(("truncate_char", rel, text[:b]))
+        if len(sig) <= small_del:           # every single-token deletion of a small file
+            for j in sig:
+                out.append(("delete", rel, "".join(toks[:j] + toks[j + 1:])))
         for _ in range(per_op):
             j = rng.choice(sig)
             out.append(("delete", rel, "".join(toks[:j] + toks[j + 1:])))
@@ -246,18 +252,30 @@ def c12_records(entries, base, tag):
     if late:
         ex = probe_texts("export-texts", [texts[j] for j in late], tag + "x")
         fallback = dict(zip(late, ex))
+    # where did a front-end panic happen?  (the exporter runs the same lexer/parser/sema and reports it)
+    pan = [j for j, o in enumerate(outs) if o.get("panic") in ("lex", "parse", "sema")]
+    if pan:
+        ex = probe_texts("export-texts", [texts[j] for j in pan], tag + "p")
+        for j, e in zip(pan, ex):
+            at = e.get("panic_at", "")
+            if at:
+                entries[j]["panic_at"] = os.path.basename(at.split(":")[0]) + "@" + at.split(":")[-1]
+                entries[j]["panic_msg"] = e.get("panic", "")
     recs = []
     for j, (en, o) in enumerate(zip(entries, outs)):
+        # slim records: optional fields (labels/inner/len: exporter re-measurement; kinds/seq/sep: drift check)
         r = {"i": base + j, "fam": en["fam"], "panic": o.get("panic", ""), "bad_spans": [], "tiled": True,
-             "lexed": False, "labels": [], "len": o.get("len", 0), "inner": []}
+             "lexed": False}
         ndiags = 0
         if o.get("panic", "") == "":
             r["bad_spans"] = o["bad_spans"]
             r["tiled"] = o["tiled"]
-            r["lexed"] = True
             ndiags = o["ndiags"]
-            if en["fam"] == "seq":
+            if en["fam"] == "seq" and len(en["seq"]) <= DRIFT_MAXLEN:
+                r["lexed"] = True
                 r["kinds"] = o["kinds"]
+                r["seq"] = en["seq"]
+                r["sep"] = en["sep"]
         elif j in fallback:
             e = fallback[j]
             if "diags" in e:
@@ -268,9 +286,6 @@ def c12_records(entries, base, tag):
                 ndiags = len(e["diags"])
             else:       # cannot happen if `probe front` got past the semantic pass; judged as a panic
                 r["panic"] = stage_of_export_panic(e)
-        if en["fam"] == "seq":
-            r["seq"] = en["seq"]
-            r["sep"] = en["sep"]
         en["ndiags"] = ndiags
         en["late"] = o.get("panic", "") if o.get("panic") in LATE_STAGES else ""
         recs.append(r)
@@ -301,9 +316,9 @@ def c12_chunk(job):
     st_ids = []
     if selftest:
         for r in recs:
-            if r["panic"] == "" and r["lexed"]:
+            if r["panic"] == "":
                 c = dict(r, i=10 ** 9 + 1, bad_spans=[["E999", 3, 2 ** 31 - 1]])
-                c2 = dict(r, i=10 ** 9 + 2, labels=[[0, r["len"] + 1]])
+                c2 = dict(r, i=10 ** 9 + 2, labels=[[0, 6]], len=5, inner=[])
                 recs = recs + [c, c2]
                 st_ids = [c["i"], c2["i"]]
                 break
@@ -349,20 +364,20 @@ def c12_chunk(job):
             "viol": viol, "drift": drift, "fam": fam, "nontriv": nontriv, "nontriv_seq": nontriv_seq, "late": late, "late_ex": late_ex,
             "selftest": (len(st_ids), len(st_hit)), "sample": sample,
             "fallback": sum(1 for en in entries if en["late"]),
-            "predicted": sum(1 for r, en in zip(recs, entries) if r["fam"] == "seq" and r["lexed"] and en.get("pred")),
-            "unpredicted": sum(1 for r, en in zip(recs, entries) if r["fam"] == "seq" and r["lexed"] and not en.get("pred"))}
+            "predicted": sum(1 for r, en in zip(recs, entries) if r["lexed"] and en.get("pred")),
+            "unpredicted": sum(1 for r, en in zip(recs, entries) if r["lexed"] and not en.get("pred"))}
 
 
 def c12_key(why, r, en):
     if why == "panic":
         if r["panic"] in ("hang", "abort"):
             return "C12:%s" % r["panic"]
-        return "C12:panic:%s:%s" % (r["panic"], text_class(en["text"]))
+        return "C12:panic:%s:%s" % (r["panic"], en.get("panic_at") or text_class(en["text"]))
     if why == "span":
         b = en["text"].encode("utf-8", "surrogatepass")
-        inner = set(r["inner"])
+        inner = set(r.get("inner", []))
         bad = [(c, lo, hi) for c, lo, hi in r["bad_spans"]]
-        bad += [(c if c != "SYNTAX" else "", lo, hi) for (lo, hi), c in zip(r["labels"], r.get("codes", []))
+        bad += [(c if c != "SYNTAX" else "", lo, hi) for (lo, hi), c in zip(r.get("labels", []), r.get("codes", []))
                 if lo > hi or hi > r["len"] or lo in inner or hi in inner]
         if not bad:
             return "C12:span:unclassified"
@@ -454,7 +469,7 @@ def judge_c12(tier):
         buf = []
         for en in itertools.chain(mut_entries(), soup_entries(), seq_entries()):
             buf.append(en)
-            cap = 3000 if en["fam"] == "mut" else CHUNK
+            cap = 10000 if en["fam"] == "mut" else CHUNK
             if len(buf) >= cap:
                 yield (buf, base, "c%d" % n, n == 0)
                 base += len(buf)
@@ -473,6 +488,7 @@ def judge_c12(tier):
     judge_wall = 0.0
     samples = []
     allviol = []
+    vcount = {}
     for r in bounded_map(c12_chunk, chunks()):
         total += r["n"]
         judged_states += r["states"]
@@ -499,15 +515,28 @@ def judge_c12(tier):
         drift += r["drift"][:max(0, 8 - len(drift))]
         if r["sample"] and len(samples) < 6 and r["sample"]["family"] not in [x["family"] for x in samples[-2:]]:
             samples.append(r["sample"])
-        allviol += r["viol"]
+        for v in r["viol"]:
+            k = c12_key(v[0], v[1], v[2])
+            vcount[k] = vcount.get(k, 0) + 1
+            if vcount[k] <= MAX_KEPT:
+                allviol.append(v)
     # shortest witnesses first (the first few become replay files)
+    # and one witness of every key class before the second witness of any
     allviol.sort(key=lambda v: (len(v[2]["text"]), v[2]["text"]))
-    for why, rec, en in allviol:
+    rank = {}
+    order = []
+    for v in allviol:
+        k = ":".join(c12_key(v[0], v[1], v[2]).split(":")[:3])
+        rank[k] = rank.get(k, 0) + 1
+        order.append((rank[k], len(order), v))
+    order.sort(key=lambda x: x[:2])
+    for _, _, (why, rec, en) in order:
         key = c12_key(why, rec, en)
         desc = "C12 %s on %s text %r (panic stage %r, bad spans %s, labels %s, tiled %s)" % (
-            why, en["fam"], en["text"][:120], rec["panic"], rec["bad_spans"][:3], rec["labels"][:3], rec["tiled"])
+            why, en["fam"], en["text"][:120], rec["panic"], rec["bad_spans"][:3], rec.get("labels", [])[:3], rec["tiled"])
         rep.violation(key, desc, {"property": "C12", "key": key, "why": why, "text": en["text"],
-                                  "family": en["fam"], "origin": {k: en[k] for k in ("op", "file", "seq", "sep") if k in en},
+                                  "family": en["fam"],
+                                  "origin": {k: en[k] for k in ("op", "file", "seq", "sep", "panic_at", "panic_msg") if k in en},
                                   "record": rec, "how": "./check C12 --replay <this file>"})
     expect = sum(nitems ** n for n in range(K + 1))
     if gen["nseq"] != expect:
@@ -536,14 +565,15 @@ def judge_c12(tier):
         "exhaustive": True,
         "exhaustive_scope": "only the enumerated part: every sequence of <= %d of the %d lexical items of Frontend.tla, "
                             "space-joined%s; mutants and soup are samples" % (K, nitems, " and newline-joined" if tier == "quick" else ""),
-        "lexes_as_intended": {"compared_with_model_prediction": predicted, "no_prediction_by_model": unpredicted,
-                              "not_observable_formatter_panic": fam.get("seq", 0) - predicted - unpredicted,
+        "lexes_as_intended": {"sequences_of_at_most": DRIFT_MAXLEN, "compared_with_model_prediction": predicted, "no_prediction_by_model": unpredicted,
                               "drift": ndrift, "examples": drift[:5]},
         "later_stage_panics_not_C12": {"counts": late, "shortest_text": late_ex,
                                        "note": "panics of Cst Display / formatter / exporter after the front end finished; "
                                                "spans of these texts were re-measured through probe export-texts "
                                                "(lexer tiling and kinds are not observable for them)"},
         "judged_through_fallback": fallback,
+        "violation_counts": vcount,
+        "violations_kept_per_key": MAX_KEPT,
         "binding_selftest": {"corrupted_records": st[0], "rejected": st[1]},
         "tlc_generator_wall_s": round(gen["wall"], 1),
         "tlc_judge_wall_s_sum": round(judge_wall, 1),
@@ -977,7 +1007,7 @@ def judge_c13(tier):
         entries += c13_texts([f], rng, n)
     log("C13: %d written files, %d texts" % (len(files), len(entries)))
     jobs = []
-    csize = 1500
+    csize = max(1500, min(10000, -(-len(entries) // 5)))      # few JVM starts: they dominate small shards
     for n, a in enumerate(range(0, len(entries), csize)):
         jobs.append((entries[a:a + csize], a, "s%d" % n, n == 0))
     results = parallel(c13_chunk, jobs)
